@@ -72,6 +72,12 @@ impl<'a, C: Context> Readable<'a, C> for Locator {
     let repr = repr::Locator::read_from(reader)?;
     Ok(repr.into())
   }
+
+  // Speedy uses this to check an element count read from the wire against the
+  // remaining input before it allocates a Vec<Locator>.
+  fn minimum_bytes_needed() -> usize {
+    <repr::Locator as Readable<'a, C>>::minimum_bytes_needed()
+  }
 }
 
 impl<C: Context> Writable<C> for Locator {
